@@ -132,7 +132,7 @@ func (w *ViewWorld) putDDoc(h int, changed, withV2 bool) error {
 
 func (w *ViewWorld) Alphabet(tier int) []string {
 	ops := []string{"Set/k/1a", "Set/k/2", "Set/j/1", "Set/j/arr", "SetRaw/k", "Delete/k", "Delete/j", "SetXattrs/k", "SetXattrs/j", "WriteTombstone/k", "Add/k",
-		"Purge", "SetWithMeta/k/above", "SetWithMeta/k/below", "SetWithMeta/k/last", "DeleteWithMeta/j/above", "DeleteWithMeta/j/last", "PutDDoc/same", "PutDDoc/changed/h1", "PutDDoc/nov2", "Query", "QueryStale", "DropRecreate"}
+		"Purge", "SetWithMeta/k/above", "SetWithMeta/k/below", "SetWithMeta/k/last", "SetWithMeta/k/next", "B.Set", "DeleteWithMeta/j/above", "DeleteWithMeta/j/last", "PutDDoc/same", "PutDDoc/changed/h1", "PutDDoc/nov2", "Query", "QueryStale", "DropRecreate"}
 	if tier > 0 {
 		ops = append(ops, "Incr/k", "RemoveXattrs/k", "WriteWithXattrs/j", "Touch/k")
 	}
@@ -181,6 +181,9 @@ func (w *ViewWorld) Apply(op string) (string, []Violation) {
 	a := w.a[hnd]
 	var err error
 	switch parts[0] {
+	case "B.Set":
+		// a write addressed to ANOTHER collection of the same bucket
+		err = coll(w.h[hnd], NameB).Set("k", 0, nil, []byte(`{"v":9,"t":"other"}`))
 	case "Set":
 		body := map[string]string{"1a": `{"v":1,"t":"a"}`, "2": `{"v":2}`, "1": `{"v":1}`, "arr": `{"v":[1,2],"t":"z"}`}[parts[2]]
 		err = a.Set(parts[1], 0, nil, []byte(body))
@@ -221,6 +224,9 @@ func (w *ViewWorld) Apply(op string) (string, []Violation) {
 			if nc == 0 {
 				return "skip", nil
 			}
+		}
+		if parts[2] == "next" {
+			nc = w.lastCas() + 1 // just above this collection's newest CAS (possibly below another collection's)
 		}
 		err = a.SetWithMeta(ctx, "k", cur, nc, 0, []byte(`{"_s":{"n":7}}`), []byte(`{"v":7,"t":"m"}`), sgbucket.FeedDataTypeJSON)
 	case "DeleteWithMeta":
